@@ -30,10 +30,11 @@ OBJ = {"ENERGY": "energy", "LATENCY": "latency", "ENERGY_DELAY_PRODUCT": "edp"}
 
 
 @st.composite
-def cases(draw, mode):
+def cases(draw, slot):
+    mode = slot["mode"]
     spec = draw(MM.small_specs(shapes=("matmul", "chain2", "chain2", "matvec", "elementwise2")))
-    t = draw(st.sampled_from(TOLS)) if mode in ("objective", "both") else 0
-    r = draw(st.sampled_from(TOLS)) if mode in ("resource", "both") else 0
+    t = slot["t"] if mode in ("objective", "both") else 0
+    r = slot["r"] if mode in ("resource", "both") else 0
     return {"spec": spec, "metrics": draw(st.sampled_from(METRICS)), "objective_tolerance": t, "resource_usage_tolerance": r}
 
 
@@ -99,23 +100,16 @@ def check(desc, col):
 
 
 N = {"quick": 48, "thorough": 480}
-NSHARDS = 16
 MODES = ["objective", "resource", "both"]
 
 
 def shards(tier, seed):
-    per = N[tier] // NSHARDS
-    return [{"k": k, "modes": [MODES[(k * per + i) % 3] for i in range(per)], "seed": seed} for k in range(NSHARDS)]
+    slots = [{"mode": MODES[i % 3], "t": TOLS[(i // 3 + seed) % 3], "r": TOLS[(i // 9 + seed) % 3]} for i in range(N[tier])]
+    return MM.deal(slots, tier, seed)
 
 
 def run_shard(shard, col):
-    counts = {}
-    for m in shard["modes"]:
-        counts[m] = counts.get(m, 0) + 1
-    for mode, n in sorted(counts.items()):
-        MM.drive_unbiased(cases(mode), check, n=n, seed=hash32(shard["seed"], "C16", shard["k"], mode), col=col)
-        if col.failures:
-            break
+    MM.run_slots(shard, col, "C16", cases, check)
 
 
 def replay(desc, col):
